@@ -2,6 +2,7 @@
 exactness of the binary64 model on integers below 2^53. -/
 import Nitime.Model.C02
 import Nitime.Lemmas.F64
+import Nitime.Lemmas.F64Bound
 import Mathlib.Tactic.Ring
 import Mathlib.Tactic.Linarith
 import Mathlib.Tactic.NormNum
@@ -10,58 +11,12 @@ import Mathlib.Tactic.FieldSimp
 import Mathlib.Algebra.Order.Field.Basic
 import Mathlib.Data.Rat.Floor
 
-/- own namespace: `Lemmas/F64Bound.lean` (C01) declares lemmas of the same names in `Nitime.F64` -/
+/- C02's float lemmas; `pow2_eq_zpow`, `pow2_pos`, `pow2_ilog2_le`, `rne_near` are C01's (`Lemmas/F64Bound.lean`, namespace `Nitime.F64`) -/
 namespace Nitime.C02F
 open Nitime.F64
 
-theorem pow2_eq_zpow (e : Int) : pow2 e = (2 : Rat) ^ e := by
-  unfold pow2
-  by_cases h : e ≥ 0
-  · obtain ⟨n, rfl⟩ := Int.eq_ofNat_of_zero_le h
-    simp [zpow_natCast]
-  · obtain ⟨n, hn⟩ := Int.eq_ofNat_of_zero_le (show 0 ≤ -e by omega)
-    have he : e = -(n : Int) := by omega
-    subst he
-    simp only [h, if_false, neg_neg, Int.toNat_natCast, zpow_neg, zpow_natCast]
-    push_cast
-    rw [one_div]
-
-theorem pow2_pos (e : Int) : 0 < pow2 e := by
-  rw [pow2_eq_zpow]; exact zpow_pos (by norm_num) e
-
-/-- `2^(ilog2 a) ≤ a` -/
-theorem pow2_ilog2_le (a : Rat) (ha : 0 < a) : pow2 (ilog2 a) ≤ a := by
-  unfold ilog2
-  simp only
-  split_ifs with h1 h2
-  · exact h2
-  · exact h1
-  · -- the estimate from the bit lengths of numerator and denominator
-    have hnum : 0 < a.num := Rat.num_pos.mpr ha
-    set n := a.num.toNat with hn
-    set d := a.den with hd
-    have hn0 : n ≠ 0 := by omega
-    have hnc : ((n : Int) : Rat) = (a.num : Rat) := by
-      have : (n : Int) = a.num := by omega
-      rw [this]
-    have h1' := Nat.log2_self_le hn0
-    have h2' : d < 2 ^ (d.log2 + 1) := Nat.lt_log2_self
-    have hd0 : 0 < d := a.den_pos
-    have ha' : a = (n : Rat) / (d : Rat) := by
-      rw [← Rat.num_div_den a]
-      congr 1
-      exact_mod_cast hnc.symm
-    rw [pow2_eq_zpow]
-    have : ((n.log2 : Int) - (d.log2 : Int) - 1) = (n.log2 : Int) - ((d.log2 + 1 : Nat) : Int) := by
-      push_cast; ring
-    rw [this, zpow_sub₀ (by norm_num), zpow_natCast, zpow_natCast, ha']
-    rw [div_le_div_iff₀ (by positivity) (by exact_mod_cast hd0)]
-    have : (2 ^ n.log2 * d : Nat) ≤ n * 2 ^ (d.log2 + 1) := Nat.mul_le_mul h1' h2'.le
-    exact_mod_cast this
-
-
 theorem ilog2_lt_of_lt (a : Rat) (ha : 0 < a) (n : Nat) (h : a < 2 ^ n) : ilog2 a < n := by
-  have h1 := pow2_ilog2_le a ha
+  have h1 := pow2_ilog2_le ha
   rw [pow2_eq_zpow] at h1
   have : (2 : Rat) ^ (ilog2 a) < (2 : Rat) ^ (n : Int) := by
     rw [zpow_natCast]; exact lt_of_le_of_lt h1 h
@@ -97,44 +52,15 @@ theorem ceil_natCast (k : Nat) : ceil (k : Rat) = k := by
   have : (-(k : Rat)) = (((-(k : Int)) : Int) : Rat) := by push_cast; rfl
   rw [this, Rat.floor_intCast]; omega
 
-/-- relative accuracy of rounding to binary64: `|rne q − q| ≤ |q|·2⁻⁵³` -/
+/-- relative accuracy of rounding to binary64: `|rne q − q| ≤ |q|·2⁻⁵³` (C01's `F64.rne_near`, with the
+power written out) -/
 theorem rne_err (q : Rat) : |rne q - q| ≤ |q| / 2 ^ 53 := by
-  have key : ∀ a : Rat, 0 < a →
-      |((rint (a / pow2 (ilog2 a - 52)) : Int) : Rat) * pow2 (ilog2 a - 52) - a| ≤ a / 2 ^ 53 := by
-    intro a ha
-    have hu0 : 0 < pow2 (ilog2 a - 52) := pow2_pos _
-    have h1 := rint_near (a / pow2 (ilog2 a - 52))
-    have hule : pow2 (ilog2 a - 52) ≤ a / 2 ^ 52 := by
-      have h2 := pow2_ilog2_le a ha
-      rw [pow2_eq_zpow] at h2
-      rw [pow2_eq_zpow, zpow_sub₀ (by norm_num : (2 : Rat) ≠ 0)]
-      have : (2 : Rat) ^ (52 : Int) = 2 ^ 52 := by norm_num
-      rw [this]
-      exact div_le_div_of_nonneg_right h2 (by positivity)
-    have heq : |((rint (a / pow2 (ilog2 a - 52)) : Int) : Rat) * pow2 (ilog2 a - 52) - a|
-        = |((rint (a / pow2 (ilog2 a - 52)) : Int) : Rat) - a / pow2 (ilog2 a - 52)| * pow2 (ilog2 a - 52) := by
-      rw [← abs_of_pos hu0, ← abs_mul, abs_of_pos hu0]
-      congr 1
-      field_simp
-    rw [heq]
-    calc _ ≤ (1 / 2) * (a / 2 ^ 52) := mul_le_mul h1 hule hu0.le (by norm_num)
-      _ = a / 2 ^ 53 := by ring
-  unfold rne
-  by_cases h0 : q = 0
-  · simp [h0]
-  · by_cases hneg : q < 0
-    · simp only [h0, if_false, hneg, if_true]
-      have := key (-q) (by linarith)
-      rw [abs_of_neg hneg]
-      rw [show -(((rint (-q / pow2 (ilog2 (-q) - 52)) : Int) : Rat) * pow2 (ilog2 (-q) - 52)) - q
-          = -(((rint (-q / pow2 (ilog2 (-q) - 52)) : Int) : Rat) * pow2 (ilog2 (-q) - 52) - (-q)) by ring,
-        abs_neg]
-      exact this
-    · simp only [h0, if_false, hneg]
-      have hq : 0 < q := lt_of_le_of_ne (not_lt.mp hneg) (Ne.symm h0)
-      rw [abs_of_pos hq]
-      exact key q hq
-
+  have h := rne_near q
+  have e : pow2 (-53) = 1 / 2 ^ 53 := by
+    rw [pow2_eq_zpow, show (-53 : Int) = -((53 : Nat) : Int) by norm_num, zpow_neg, zpow_natCast, one_div]
+  rw [e] at h
+  calc |rne q - q| ≤ |q| * (1 / 2 ^ 53) := h
+    _ = |q| / 2 ^ 53 := by ring
 
 /-- rounding as a relative perturbation: `rne t = t·ρ` with `|ρ − 1| ≤ 2⁻⁵³` -/
 theorem rne_ratio (t : Rat) (ht : t ≠ 0) : |rne t / t - 1| ≤ 1 / 2 ^ 53 := by
@@ -352,6 +278,63 @@ theorem arangeLen_exact (l : Nat) (dt : Int) (hdt : 0 < dt) (hl : 0 < l)
     push_cast; field_simp
   rw [hq, C02F.rne_natCast l hl', C02F.ceil_natCast]
   simp
+
+/-- what `resolve` does after the inheritance step -/
+theorem resolve_after_inherit {v : Variant} {s s' : Spec} {r : Resolved}
+    (hi : inherit v s = .ok s') (h : resolve v s = .ok r) :
+    ∃ uo, checkUnit s'.unit = .ok uo ∧ r.unit = inferUnit uo s'.duration s'.interval ∧
+      r.t0 = targPs r.unit (s'.t0.getD (.num (.int 0))) ∧
+      ∃ iv hz, deriveIntervalRate v r.unit s'.length s'.interval s'.rate s'.duration = .ok (iv, hz) ∧
+        durationPs r.unit s'.length iv s'.duration = .ok r.durReq ∧ r.dt = targPs r.unit iv ∧ r.rate = hz := by
+  simp only [resolve, hi, bind, Except.bind, pure, Except.pure] at h
+  cases hu : checkUnit s'.unit with
+  | error e => rw [hu] at h; cases h
+  | ok uo =>
+    rw [hu] at h
+    simp only at h
+    split at h
+    · cases h
+    · rename_i p hp
+      split at h
+      · cases h
+      · rename_i dur hdur
+        simp only [Except.ok.injEq] at h
+        subst h
+        exact ⟨uo, rfl, rfl, rfl, p.1, p.2, hp, hdur, rfl, rfl⟩
+
+theorem inherit_none {v : Variant} {s : Spec} (hd : s.data = none) : inherit v s = .ok s := by
+  unfold inherit; rw [hd]
+
+theorem inherit_intended_fields {s s' : Spec} {d : Axis} (hd : s.data = some d)
+    (h : inherit .intended s = .ok s') :
+    s'.unit = (match s.unit with | .none => .ok d.unit | u => u) ∧
+    s'.t0 = (match s.t0 with | none => some (.tobj d.t0 d.unit) | t => t) := by
+  unfold inherit at h
+  rw [hd] at h
+  simp only at h
+  split_ifs at h <;>
+    (simp only [Except.ok.injEq] at h; subst h; exact ⟨rfl, by cases hst : s.t0 <;> simp [hst]⟩)
+
+/-- with an existing axis and neither length nor duration given, the duration is the source's -/
+theorem inherit_intended_duration {s s' : Spec} {d : Axis} (hd : s.data = some d)
+    (hl : s.length = none) (hdur : s.duration = none) (hc : checkTspec s = .ok ())
+    (h : inherit .intended s = .ok s') :
+    s'.duration = some (.tobj d.dur d.unit) ∧ s'.length = none := by
+  have w0 : wd 0 = [false, false, false, false] := by decide
+  have w1 : wd 1 = [true, false, false, false] := by decide
+  have w2 : wd 2 = [false, true, false, false] := by decide
+  have w3 : wd 3 = [false, false, true, false] := by decide
+  have w4 : wd 4 = [false, false, false, true] := by decide
+  unfold inherit at h
+  rw [hd] at h
+  simp only [w0, w1, w2, w3, w4] at h
+  unfold checkTspec at hc
+  rw [hd] at hc
+  rcases hi : s.interval with _ | iv <;> rcases hr : s.rate with _ | rt <;>
+    simp [tspecOf, hl, hdur, hi, hr] at h hc <;>
+    first
+    | (subst h; exact ⟨rfl, rfl⟩)
+    | (exfalso; revert hc; decide)
 
 section floatchain
 open Nitime.F64 Nitime.C02F
@@ -689,6 +672,37 @@ theorem same_sampling_interval_rate (u : TimeUnit) (x : Rat) (k : Int) (hx : 0 <
     · rw [hfreq]
       simp only [toPs, C01.toPsF, fmul, fdiv, periodF, hs, hps, h1, ofInt, hfac, cf_exact]
       exact c2
+
+theorem rne_one : rne 1 = 1 := by
+  have := rne_natCast 1 (by norm_num); simpa using this
+
+/-- `Frequency(hz, 's')` of a binary64 number is that number -/
+theorem frequency_s_of_repr (hz : Rat) (h : rne hz = hz) : frequency hz .s = hz := by
+  have hs : cf .s = 10 ^ 12 := by rw [cf_exact]; norm_num [Generated.factor]
+  simp only [frequency, fmul, fdiv, hs]
+  rw [div_self (by positivity), rne_one, mul_one, h]
+
+/-- a specification with a bare number as rate (Hz) and an explicit unit -/
+theorem resolve_rate_num {v : Variant} {s : Spec} {r : Resolved} {q : C01.Num} {u : TimeUnit}
+    (h : resolve v s = .ok r) (hd : s.data = none) (hi : s.interval = none)
+    (hr : s.rate = some (.num q)) (hu : s.unit = .ok u) :
+    ∃ x, intervalOfRate v u (frequency (numToF q) .s) = .ok x ∧ r.dt = toPs u (.flt x) ∧
+      r.rate = frequency (numToF q) .s ∧ r.unit = u ∧ r.t0 = targPs u (s.t0.getD (.num (.int 0))) := by
+  obtain ⟨data, length, duration, rate, interval, t0, unit⟩ := s
+  simp only at hd hi hr hu
+  subst hd hi hr hu
+  simp only [resolve, inherit, checkUnit, inferUnit, deriveIntervalRate, bind, Except.bind,
+    pure, Except.pure] at h
+  cases hx : intervalOfRate v u (frequency (numToF q) .s) with
+  | error e => rw [hx] at h; cases h
+  | ok x =>
+    rw [hx] at h
+    simp only at h
+    split at h
+    · cases h
+    · simp only [Except.ok.injEq] at h
+      subst h
+      exact ⟨x, rfl, rfl, rfl, rfl, rfl⟩
 
 end floatchain
 
